@@ -887,9 +887,15 @@ def filter_kwargs(_function, *args, **kwargs):
     if has_kwargs(_function):
         return _function(*args, **kwargs)
 
-    # Get the list of function arguments
-    func_code = _function.__code__
-    function_args = func_code.co_varnames[: func_code.co_argcount]
+    # Get the list of function arguments which can be passed by keyword.
+    # The signature (unlike the code object) sees through decorators such
+    # as util.deprecated, whose wrapper takes only (*args, **kwargs)
+    sig = inspect.signature(_function)
+    function_args = [
+        name
+        for name, param in sig.parameters.items()
+        if param.kind in (param.POSITIONAL_OR_KEYWORD, param.KEYWORD_ONLY)
+    ]
     # Construct a dict of those kwargs which appear in the function
     filtered_kwargs = {}
     for kwarg, value in list(kwargs.items()):
